@@ -234,7 +234,7 @@ int main(int argc, char **argv) {
 	if (replay) {
 		std::vector<uint8_t> v;
 		if (!read_file(replay, v)) { fprintf(stderr, "cannot read %s\n", replay); return 2; }
-		Report r; r.verbose = true;
+		Report r; r.verbose = true; r.trace = getenv("VF_TRACE") != nullptr;
 		std::map<std::string, uint64_t> hist; r.hist = &hist;
 		if (v.size() >= 5 && !memcmp(v.data(), "VFEXH", 5)) {
 			// marker written before the exhaustive sub-check: "VFEXH <worker> <nworkers> <thorough>"
@@ -306,7 +306,9 @@ int main(int argc, char **argv) {
 		if (rc == 1) {
 			fail_sig = r.sig.empty() ? "exhaustive" : r.sig; fail_detail = r.detail; fail_desc = r.desc;
 			char name[1200]; snprintf(name, sizeof name, "%s/fail-exh-%d.bin", g_outdir.c_str(), g_worker);
-			write_file(name, marker.data(), marker.size()); fail_path = name;
+			if (!exh.fail_case.empty()) write_file(name, exh.fail_case.data(), exh.fail_case.size());
+			else write_file(name, marker.data(), marker.size());
+			fail_path = name;
 		}
 	}
 
